@@ -179,7 +179,7 @@ func call(raw json.RawMessage) (any, error) {
 		var ok bool
 		var dump string
 		switch cs.Action {
-		case "logout":
+		case "logout", "logout-pipelined":
 			ok, dump = withWatchdog("LOGOUT", func() {
 				switch cs.States[0] {
 				case "idle":
@@ -187,7 +187,13 @@ func call(raw json.RawMessage) (any, error) {
 				case "literal":
 					_ = first.C.Send([]byte(strings.Repeat("x", 17) + "\r\n"))
 				}
-				_ = first.C.Send([]byte("zz LOGOUT\r\n"))
+				if cs.Action == "logout-pipelined" {
+					// further commands arrive in the same segment as LOGOUT: the command reader has them in hand when the
+					// session ends
+					_ = first.C.Send([]byte("zz LOGOUT\r\nzy NOOP\r\nzx NOOP\r\n"))
+				} else {
+					_ = first.C.Send([]byte("zz LOGOUT\r\n"))
+				}
 				for {
 					if _, err := first.C.ReadResp(); err != nil {
 						return
@@ -206,7 +212,11 @@ func call(raw json.RawMessage) (any, error) {
 		if !ok {
 			add("does-not-return", cs.Action+"/"+cs.States[0], cs.Action+" did not return within "+watchdog.String()+": "+dump)
 		}
-		// the server is closed in every configuration
+		// the server is closed in every configuration; goroutines are counted after Close has returned and before the
+		// context given to Serve is cancelled (a closed server must not depend on that to release its goroutines)
+		var left []string
+		checked := false
+		w.AfterClose = func() { left, checked = leaked(base, 10*time.Second), true }
 		closed, dump := withWatchdog("Close", func() { _ = w.Shutdown() })
 		if !closed {
 			add("does-not-return", "Close/"+strings.Join(cs.States, "+"), "Server.Close did not return within "+watchdog.String()+": "+dump)
@@ -215,7 +225,10 @@ func call(raw json.RawMessage) (any, error) {
 			return res, nil
 		}
 		w.Close()
-		if left := leaked(base, 10*time.Second); len(left) > 0 {
+		if !checked {
+			left = leaked(base, 10*time.Second)
+		}
+		if len(left) > 0 {
 			add("goroutine-leak", left[0], fmt.Sprintf("%d gluon goroutine(s) left after Close: %v; stacks: %s", len(left), left, lastLeakDump))
 		}
 		outcomes[fmt.Sprintf("%v|%s", cs.States, cs.Action)] = true
